@@ -20,6 +20,11 @@ ArgOf(i) == CASE i = 1 -> LI(10) [] i = 2 -> Bin("+", Var("x"), LI(1)) [] i = 3 
 
 Params(ar, defs) == [i \in 1..ar |-> IF i \in defs THEN ParamD(PNames[i], DefaultOf(i)) ELSE Param(PNames[i])]
 Args(n) == [i \in 1..n |-> ArgOf(i)]
+\* an explicit null is an argument like any other: it is bound, the default is not used
+ArgsNullLast(n) == [i \in 1..n |-> IF i = n THEN Lit(Null) ELSE ArgOf(i)]
+ArgsUndefLast(n) == [i \in 1..n |-> IF i = n THEN Var("nosuchvar") ELSE ArgOf(i)]
+ArgsOf(c) == IF "argstyle" \notin DOMAIN c \/ c.argstyle = "plain" THEN Args(c.n)
+             ELSE IF c.argstyle = "nulllast" THEN ArgsNullLast(c.n) ELSE ArgsUndefLast(c.n)
 
 BodyKinds == {"print", "sets", "nested"}
 \* a body reads only its own parameters and what it assigns itself (whether it may
@@ -31,21 +36,24 @@ MacroBody(bk, ar) ==
       [] bk = "nested" -> <<T(<<60>>), PrintS(Call("hh", <<Var("a")>>)), T(<<62>>)>> \o PrintParams(ar)
 Helper == Macro("hh", <<Param("v")>>, <<T(<<104>>), PrintS(Var("v"))>>)
 
-Forms == {"local", "self", "import", "from", "fromas"}
+Forms == {"local", "self", "import", "from", "fromas", "rebind"}
 Sites == {"top", "loop", "block", "if", "include", "macro"}
 
 \* the call expression in the given form
-CallExpr(form, n) ==
-    CASE form = "local"  -> Call("mm", Args(n))
-      [] form = "self"   -> MCall("_self", "mm", Args(n))
-      [] form = "import" -> MCall("L", "mm", Args(n))
-      [] form = "from"   -> Call("mm", Args(n))
-      [] form = "fromas" -> Call("qq", Args(n))
+CallExpr(form, as) ==
+    CASE form = "local"  -> Call("mm", as)
+      [] form = "self"   -> MCall("_self", "mm", as)
+      [] form = "import" -> MCall("L", "mm", as)
+      [] form = "from"   -> Call("mm", as)
+      [] form = "fromas" -> Call("qq", as)
+      [] form = "rebind" -> Call("mm", as)
 ImportStmt(form) ==
     CASE form = "import" -> <<Import(LS(NT.t1), "L")>>
       [] form = "from"   -> <<From(LS(NT.t1), <<"mm">>, <<"mm">>)>>
       [] form = "fromas" -> <<From(LS(NT.t1), <<"mm">>, <<"qq">>)>>
+      [] form = "rebind" -> <<From(LS(NT.t3), <<"mm">>, <<"mm">>), From(LS(NT.t1), <<"mm">>, <<"mm">>)>>
       [] OTHER -> <<>>
+OtherLib == <<Macro("mm", <<Param("a"), Param("b"), Param("c")>>, <<T(<<79, 84, 72, 69, 82>>)>>)>>     \* prints OTHER
 IsLocalForm(form) == form \in {"local", "self"}
 
 \* the caller's probe after the call: assignments in the body are invisible
@@ -63,22 +71,24 @@ Site(c, form, callStmts) ==
       [] c.site = "include" -> <<Inc(LS(NT.t2))>> \o After
 
 Tp(c, form) ==
-    LET call == <<PrintS(CallExpr(form, c.n))>> IN
+    LET call == <<PrintS(CallExpr(form, ArgsOf(c)))>> IN
     IF c.site = "include" THEN
         ("main" :> Site(c, form, <<>>))
         @@ ("t2" :> (IF IsLocalForm(form) THEN Defs(c) ELSE ImportStmt(form)) \o call)
-        @@ ("t1" :> Defs(c))
+        @@ ("t1" :> Defs(c)) @@ ("t3" :> OtherLib)
     ELSE
         ("main" :> (IF IsLocalForm(form) THEN Defs(c) ELSE ImportStmt(form)) \o Site(c, form, call))
-        @@ ("t1" :> Defs(c))
+        @@ ("t1" :> Defs(c)) @@ ("t3" :> OtherLib)
 
 \* sibling calls and calls from inside another macro only in the local forms (the
 \* property does not say which imports a macro body sees)
 FormApplies(c, form) == (c.bk = "nested" \/ c.site = "macro") => form = "local"
 
-Cases == {[ar |-> ar, defs |-> defs, n |-> n, bk |-> bk, site |-> site]
-            : ar \in 0..MaxArity, defs \in SUBSET (1..MaxArity), n \in 0..(MaxArity + 1), bk \in BodyKinds, site \in Sites}
-Valid(c) == c.defs \subseteq 1..c.ar /\ c.n <= c.ar + 1 /\ (c.bk = "nested" => c.ar >= 1)
+Cases == {[ar |-> ar, defs |-> defs, n |-> n, bk |-> bk, site |-> site, argstyle |-> st]
+            : ar \in 0..MaxArity, defs \in SUBSET (1..MaxArity), n \in 0..(MaxArity + 1), bk \in BodyKinds, site \in Sites,
+              st \in {"plain", "nulllast", "undeflast"}}
+Valid(c) == /\ c.defs \subseteq 1..c.ar /\ c.n <= c.ar + 1 /\ (c.bk = "nested" => c.ar >= 1)
+            /\ (c.argstyle # "plain" => c.n >= 1 /\ c.n <= c.ar /\ c.bk = "print" /\ c.site \in {"top", "loop"})
 
 Ctx == ("a" :> VI(1)) @@ ("x" :> VI(5))
 World(tp) == MkW(tp, {}, {}, NoFault)
@@ -91,7 +101,7 @@ CaseOf(c) ==
     [prop |-> "C12", key |-> ToJson(c),
      tags |-> {"arity:" \o ToString(c.ar), "argc:" \o ToString(c.n), "body:" \o c.bk, "site:" \o c.site}
               \cup {"default:" \o ToString(i) : i \in c.defs}
-              \cup (IF c.n > c.ar THEN {"extra-arg"} ELSE {}) \cup (IF c.n < c.ar THEN {"omitted-arg"} ELSE {}),
+              \cup {"args:" \o c.argstyle} \cup (IF c.n > c.ar THEN {"extra-arg"} ELSE {}) \cup (IF c.n < c.ar THEN {"omitted-arg"} ELSE {}),
      entry |-> "main", ctx |-> Ctx,
      runs |-> {[label |-> f, tp |-> Sources(Tp(c, f), LMin), xcalls |-> [id \in {} |-> 0]] : f \in {g \in Forms : FormApplies(c, g)}},
      expect |-> [ok |-> ref.ok, out |-> ref.out, err |-> ref.err, calls |-> [id \in {} |-> 0]]]
